@@ -106,24 +106,62 @@ def new_spec(kind, semantics='standard'):
 STRUCT = None
 STRUCT_P = 0.05
 
+# Typed data.  While a case is being judged (TYPED is a random.Random), a few of the Mon objects get every
+# integral sample value as a Python int instead of a float (README and suite data are lists of ints), a third of
+# those also 0/1 as bool (a Boolean-valued signal; bool is an int in Python) and half of them integral time-stamps as
+# ints: numerically the same data, so the semantics and the oracles are unchanged.
+TYPED = None
+TYPED_P = 0.06
+
 HISTORY = None
 HISTORY_P = 0.15
 REPARSE = True          # C20 switches it off: explain() also reports on the assertions of earlier parse() calls
 LAST_HISTORY = []
 
 
-def begin_case(rng, reparse=True, struct=True):
-    global HISTORY, REPARSE, STRUCT
+def begin_case(rng, reparse=True, struct=True, typed=True):
+    global HISTORY, REPARSE, STRUCT, TYPED
     HISTORY = rng if os.environ.get('RTVERIF_HISTORY', '1') != '0' else None
     STRUCT = rng if (struct and os.environ.get('RTVERIF_STRUCT', '1') != '0') else None
+    TYPED = rng if (typed and os.environ.get('RTVERIF_TYPED', '1') != '0') else None
     REPARSE = reparse
     del LAST_HISTORY[:]
 
 
 def end_case():
-    global HISTORY, STRUCT
+    global HISTORY, STRUCT, TYPED
     HISTORY = None
     STRUCT = None
+    TYPED = None
+
+
+def _typed_value(v, bools):
+    if isinstance(v, float) and v == v and abs(v) < 2 ** 53 and v.is_integer():
+        if bools and v in (0.0, 1.0):
+            return bool(v)
+        return int(v)
+    return v
+
+
+def typed_args(method, args, mode):
+    """The same data with integral values as ints (mode[0]: 0/1 as bools; mode[1]: integral stamps as ints too)."""
+    bools, stamps = mode
+    if method == 'evaluate' and len(args) == 1 and isinstance(args[0], dict):
+        d = args[0]
+        return (dict((k, ([_typed_value(x, False) for x in col] if stamps else list(col)) if k == 'time' else
+                      [_typed_value(x, bools) for x in col]) for k, col in d.items()),)
+    if method == 'update' and len(args) == 2 and isinstance(args[0], (int, float)):
+        return (_typed_value(args[0], False) if stamps else args[0],
+                [(k, _typed_value(x, bools)) for k, x in args[1]])
+    out = []
+    for a in args:
+        if not (isinstance(a, (list, tuple)) and len(a) == 2 and isinstance(a[1], (list, tuple))):
+            return args
+        # (dense-time stamps stay floats: with int stamps rtamt computes break-points as exact Fractions, e.g.
+        # Fraction(1, 1000), which differ from the float 0.001 of the other execution by 2e-20 - not a difference
+        # the properties speak about)
+        out.append([a[0], [[x[0], _typed_value(x[1], bools)] for x in a[1]]])
+    return tuple(out)
 
 
 def _shuffled(h, vals):
@@ -175,6 +213,8 @@ class Mon(object):
         if HISTORY is not None and HISTORY.random() < HISTORY_P:
             import random
             hist = random.Random(HISTORY.randrange(1 << 30))
+        if hist is not None and hist.random() < 0.3:
+            self._refused_declaration(hist)
         if parse:
             self.parse()
             if hist is not None and REPARSE and hist.random() < 0.3:
@@ -183,6 +223,9 @@ class Mon(object):
             self.pastify()
         self._hist = hist
         self._struct = None            # None: undecided; False: no; dict: mapping float variable -> field
+        self._typed = None
+        if TYPED is not None and not sd.get('struct') and TYPED.random() < TYPED_P:
+            self._typed = (TYPED.random() < 0.34, TYPED.random() < 0.5)
         self._parsed = parse
         if sd.get('structify'):
             self._struct_wanted = True
@@ -191,6 +234,27 @@ class Mon(object):
             self._struct_wanted = (STRUCT is not None and parse and kind.startswith('dt')
                                    and not sd.get('io') and sd.get('semantics', 'standard') == 'standard'
                                    and not sd.get('struct') and STRUCT.random() < STRUCT_P)
+
+    def _refused_declaration(self, h):
+        """History: before parse(), the caller tries to declare a constant under a name that is already taken (by a
+        variable or a constant) and with another value; rtamt refuses that with RTAMTException, and a refused
+        declaration leaves no trace.  If it is accepted nothing is claimed: the object is rebuilt.  Never raises."""
+        sd = self.sd
+        names = [c[0] for c in sd.get('consts', ())] + list(sd.get('vars', ()))
+        if not names:
+            return
+        nm = h.choice(names)
+        val = h.choice(['7', '3', '-2.5', '1000', '0'])
+        try:
+            self.spec.declare_const(nm, 'float', val)
+        except RTAMTException:
+            REC.counts['history:refused-declaration'] += 1
+            LAST_HISTORY.append('object #%d: declare_const(%r, float, %s) was refused before parse()' % (self.oid, nm, val))
+            return
+        except Exception:
+            pass
+        REC.counts['history-raised:redeclaration-not-refused'] += 1
+        self.spec = build_spec(self.kind, sd)
 
     def _structify(self, method, args):
         """First evaluate()/update(): decide on the struct spelling and re-build the object over it."""
@@ -285,6 +349,16 @@ class Mon(object):
                     pk = h.choice(sorted(key for key in d2 if key != 'time'))
                     d2[pk] = [None] * k
                     what += ' (a call that fails: %s carries no numbers)' % pk
+                elif '/' in self.sd.get('text', '') and h.random() < 0.4:
+                    # ... or a call that fails deep inside the formula: a variable that is 0 throughout (division)
+                    pk = h.choice(sorted(key for key in d2 if key != 'time'))
+                    d2[pk] = [0.0] * k
+                    what += ' (%s is 0 throughout: a division by it fails)' % pk
+                elif half is None and '[' in self.sd.get('text', '') and h.random() < 0.2 and isinstance(real[0], int):
+                    # ... or a call that is refused at evaluation time: under 7 times the sampling period the bounds
+                    # are (in general) not multiples of the period; the period is set back afterwards
+                    half = (real[0] * 7, real[1])
+                    what += ' (a call that is refused if a bound is not a multiple of that period)'
                 runit = self.sd.get('unit') or 's'
                 ounit = None
                 if half is None and h.random() < 0.3:
@@ -314,6 +388,10 @@ class Mon(object):
                     j = h.randrange(len(a2))
                     a2[j] = [a2[j][0], [[x[0], None] for x in a2[j][1]]]
                     what += ' (a call that fails: %s carries no numbers)' % a2[j][0]
+                elif '/' in self.sd.get('text', '') and h.random() < 0.4 and a2:
+                    j = h.randrange(len(a2))
+                    a2[j] = [a2[j][0], [[x[0], 0.0] for x in a2[j][1]]]
+                    what += ' (%s is 0 throughout: a division by it fails)' % a2[j][0]
                 s.evaluate(*a2)
             elif method == 'update' and len(args) == 2 and isinstance(args[0], (int, float)):
                 t0, ins = args
@@ -322,12 +400,14 @@ class Mon(object):
                 what = '%d update() calls with other values, then reset()' % k
                 bad = h.randrange(k) if (h.random() < 0.3 and len(ins) > 1) else None
                 pv = h.randrange(len(ins))
+                badval = 0.0 if ('/' in self.sd.get('text', '') and h.random() < 0.5) else None
                 if bad is not None:
-                    what = '%d update() calls with other values, the %s of which fails (%s is None), then reset()' % (
-                        k, ['first', 'second', 'third', 'fourth', 'fifth'][bad], ins[pv][0])
+                    what = '%d update() calls with other values, the %s of which fails (%s is %s), then reset()' % (
+                        k, ['first', 'second', 'third', 'fourth', 'fifth'][bad], ins[pv][0],
+                        'None' if badval is None else '0: a division by it fails')
                 for i in range(k):
                     try:
-                        s.update(t0 + i, [(nm, (None if (i == bad and j == pv) else val + h.choice([-1.0, 0.0, 1.0, 2.5])))
+                        s.update(t0 + i, [(nm, (badval if (i == bad and j == pv) else val + h.choice([-1.0, 0.0, 1.0, 2.5])))
                                           for j, (nm, val) in enumerate(ins)])
                     except Exception:
                         if i != bad:
@@ -417,6 +497,12 @@ class Mon(object):
                 self._structify(method, args)
             if self._struct:
                 args = self._struct_args(method, args)
+            elif self._typed is not None:
+                args = typed_args(method, args, self._typed)
+                if getattr(self, '_ncalls', 0) <= 1:
+                    REC.counts['typed-data:' + method] += 1
+                    LAST_HISTORY.append('object #%d: integral values passed as int%s' % (
+                        self.oid, ' (0/1 as bool)' if self._typed[0] else ''))
         if self._hist is not None and method in ('evaluate', 'update'):
             h, self._hist = self._hist, None
             if h.random() < 0.3:
